@@ -188,6 +188,10 @@ var vC14Faulty = []string{
 	// DELETE needs a Boolean WHERE like SELECT; IN over operands it cannot compare
 	"delete where 1", "delete where 'a'", "delete where key", "delete where upper(key)", "delete where int(value) + 1",
 	"select * where (key = 'a') in (true, false)", "select * where is_int(value) in (true)", "select key, is_int(value) in (false) where key = 'a'",
+	// aggregates outside the select list; a cascaded field access whose index is not a literal
+	"select * where count(value) > 1", "select * where key = 'a' & sum(int(value)) > 1", "delete where count(1) > 0", "put ('a', str(count(1)))",
+	"remove group_concat('a', ',')", "select * where json(value)['a'][key] = 'x'", "select json(value)['a'][strlen(key)] where key = 'a'",
+	"remove json('{}')['a'][key]", "put ('k', json('{}')['a'][value])", "select * where json(value)['a'][1 + 1] = 'x'",
 	// wrong kinds in put/remove
 	"put ('a', true)", "put (is_int('1'), 'a')", "remove true", "put ('a', split('a', ','))",
 }
